@@ -362,20 +362,15 @@ def write_evidence(prop, tier, seed, coverage, wall_s, violations, assumptions):
         del coverage["discharged"]
         coverage["discharged_count"] = 0
         ev["coverage"] = coverage
-    try:
-        try:
-            import jsonschema
-        except ImportError:
-            sys.path.append("/opt/veriftools/pyvenv/lib/python3.11/site-packages")
-            import jsonschema
-        with open("/root/.vp/EVIDENCE.schema.json") as f:
-            jsonschema.validate(ev, json.load(f))
-    except ImportError:
-        pass
-    except FileNotFoundError:
-        pass
     with open(p, "w") as f:
         json.dump(ev, f, indent=1, sort_keys=True)
+    # schema validation with the tooling venv when it is there (it has jsonschema); otherwise skipped
+    if shutil.which("python3-vt") and os.path.exists("/root/.vp/EVIDENCE.schema.json"):
+        rc, out = sh(["python3-vt", "-c",
+                      "import json,jsonschema,sys; jsonschema.validate(json.load(open(sys.argv[1])), json.load(open('/root/.vp/EVIDENCE.schema.json')))",
+                      p])
+        if rc != 0:
+            raise RuntimeError("evidence does not validate: " + out[-800:])
     return p
 
 
